@@ -198,23 +198,7 @@ func reap() {
 	}
 }
 
-func errClass(err error) string {
-	switch {
-	case err == nil:
-		return "nil"
-	case errors.Is(err, util.ErrBadOption):
-		return "badoption"
-	case errors.Is(err, util.ErrTimeoutError):
-		return "timeout"
-	case errors.Is(err, util.ErrConnectionError):
-		return "connection"
-	case errors.Is(err, util.ErrAuthError):
-		return "auth"
-	case errors.Is(err, util.ErrIgnoredOption):
-		return "ignored"
-	}
-	return "other"
-}
+// errClass (shared, c01.go) maps errors to the canonical classes.
 
 /* ------------------------------------------------------------------ sys: argv via the stand-in */
 
